@@ -22,12 +22,12 @@ func (t Term) String() string { return t.S }
 // Universe holds everything that is global to one govc run: sort declarations,
 // string literals, type tags, uninterpreted function declarations.
 type Universe struct {
-	sortDecls   []string          // in dependency order
-	sortSeen    map[string]bool   // sort name -> declared
+	sortDecls   []string        // in dependency order
+	sortSeen    map[string]bool // sort name -> declared
 	structSorts map[string]*types.Struct
 	funDecls    []string
 	funSeen     map[string]bool
-	axioms      []string // global axioms (always included)
+	axioms      []string          // global axioms (always included)
 	lits        map[string]string // string literal value -> symbol
 	litOrder    []string
 	tags        map[string]int // type string -> tag
